@@ -10,7 +10,7 @@
    decoders; see the open known findings of C06. *)
 From Coq Require Import List ZArith Lia.
 From Coq.Strings Require Import Byte.
-From DRX Require Import Py.PyBytes Model.Riff Model.Clut Model.Bitd Proofs.BitdFacts Proofs.BitdRawFacts Proofs.Bitd1Facts Proofs.BmpReadFacts.
+From DRX Require Import Py.PyBytes Model.Riff Model.Clut Model.Bitd Proofs.BitdFacts Proofs.BitdRawFacts Proofs.Bitd1Facts Proofs.BmpReadFacts Proofs.Bitd24Facts Proofs.Bmp24ReadFacts.
 Import ListNotations.
 Open Scope Z_scope.
 
@@ -147,6 +147,39 @@ Theorem C06_bmp1_raw_reader : forall bw bh pw ph rows pname pdata pal,
     forall x y, 0 <= x < bw -> 0 <= y < bh -> bmp_read bmp x y = Some (want bits_of [] rows pw ph w x y).
 Proof. exact bmp1_raw_reader. Qed.
 
+(* ---- 32 bit (written as 24 bits per pixel) ---- *)
+(* the stream is written linearly into rows of four colour planes; any PackBits segmentation of the concatenated rows
+   (tokens may cross plane and row boundaries); output rows: 3-byte pixels (plane 3, 2, 1), padded to 4 bytes *)
+Theorem C06_compressed24_pixels : forall w h ts rows,
+  0 < w -> Forall wf_tok ts -> dec_toks ts = concat rows -> Forall (fun r => zlen r = w * 4) rows -> zlen rows = h ->
+  decode_compressed24 (enc_toks ts) w h (w * 4) = Ok (concat (map (out_row24 w) (rev rows))).
+Proof. exact compressed24_pixels. Qed.
+Theorem C06_compressed24_encoding_independent : forall w h ts1 ts2 rows,
+  0 < w -> Forall wf_tok ts1 -> Forall wf_tok ts2 -> dec_toks ts1 = concat rows -> dec_toks ts2 = concat rows ->
+  Forall (fun r => zlen r = w * 4) rows -> zlen rows = h ->
+  decode_compressed24 (enc_toks ts1) w h (w * 4) = decode_compressed24 (enc_toks ts2) w h (w * 4).
+Proof. exact compressed24_encoding_independent. Qed.
+(* the whole file under a standard reader (3 bytes per pixel, stride ((w*24+31)/32)*4, bottom-up): at every canvas
+   position the three colour bytes of the stored row.  The registration offsets are not applied by this decoder
+   (open finding C06-16-32-offsets-ignored): this is the property's demand for images without offsets. *)
+Theorem C06_bmp24_reader : forall bw bh pw ph ts rows,
+  0 < bw -> 0 <= ph -> Forall wf_tok ts -> dec_toks ts = concat rows -> Forall (fun r => zlen r = bw * 4) rows -> zlen rows = bh ->
+  bw < 2 ^ 31 -> bh < 2 ^ 31 -> bw * bh * 3 + 54 < 2 ^ 31 -> zlen (enc_toks ts) <> (bw - pw) * 2 * (bh - ph) ->
+  exists bmp, decode24 (enc_toks ts) bw bh pw ph = Ok bmp /\
+    forall x y, 0 <= x < bw -> 0 <= y < bh -> bmp_read3 bmp x y = Some (pixel24 bw (nth (Z.to_nat y) rows []) x).
+Proof. exact bmp24_reader. Qed.
+Example C06_reader_example24 :      (* a 3 x 2 image: odd width, rows padded from 9 to 12 bytes; one token crosses the row boundary *)
+  let rows := [[x00; x00; x00; x11; x12; x13; x21; x22; x23; x31; x32; x33]; [x00; x00; x00; x41; x42; x43; x51; x52; x53; x61; x62; x63]] in
+  let ts := [TLit [x00; x00; x00; x11; x12; x13; x21; x22; x23; x31]; TLit [x32; x33; x00]; TRun 2 x00; TLit [x41; x42; x43; x51; x52; x53; x61; x62; x63]] in
+  dec_toks ts = concat rows /\
+  match decode24 (enc_toks ts) 3 2 0 0 with
+  | Ok bmp => map (fun y => map (fun x => bmp_read3 bmp x y) [0; 1; 2]) [0; 1]
+              = [[Some [x31; x21; x11]; Some [x32; x22; x12]; Some [x33; x23; x13]];
+                 [Some [x61; x51; x41]; Some [x62; x52; x42]; Some [x63; x53; x43]]]
+  | _ => False
+  end.
+Proof. vm_compute. split; reflexivity. Qed.
+
 (* non-vacuity of the reader theorems: the premises hold for a 3x2 image at offset (1,1) on a 5x3 canvas with the
    default palettes, and the reader sees the expected pixels in the file the model writes *)
 Definition ex_rows8 : list (list tok) := [[TRun 2 x07; TLit [x09; x00]]; [TLit [x01]; TRun 3 x00]].
@@ -208,3 +241,6 @@ Print Assumptions C06_bmp8_compressed_reader.
 Print Assumptions C06_bmp8_raw_reader.
 Print Assumptions C06_bmp1_compressed_reader.
 Print Assumptions C06_bmp1_raw_reader.
+Print Assumptions C06_compressed24_pixels.
+Print Assumptions C06_compressed24_encoding_independent.
+Print Assumptions C06_bmp24_reader.
